@@ -13,6 +13,10 @@ const ruleFetch = "Fetcher.Run in a synctest bubble (-race) against a scripted l
 const ruleScan = "Scanner.Scan over the same scripted logs with real leaves (36 generated certificates / precertificates, 6 that parse only with a non-fatal error, 6 with unparsable certificates), matcher in {MatchAll, MatchNone, MatchSerialNumber, custom serial predicate, custom LeafMatcher, MatchSCTTimestamp, CertParseFailMatcher with and without MatchNonFatalErrs}, PrecertOnly on/off, 1-6 matcher workers, buffer 0-100, cancel at a drawn instant / after settling / never; optionally a second Scan on the same Scanner. Non-trivial: as for fetch"
 
 var Fetch = harness.Define(harness.Opts{Name: "fetch", Rule: ruleFetch, Quick: 3000, Thorough: 15000, Crashy: true}, genFetch, checkFetch)
+
+const rulePar = "Fetcher.Run WITHOUT virtual time on 4 Ps (-race): 2-4 fetchers, batch 1-6, 2-24 ranges, a log that answers at once after finite per-start error bursts (mostly 429), short reads, and a callback barrier that releases the workers together so that they finish their ranges in the same instant; one-shot, never stopped. Non-trivial: >= 2 fetchers"
+
+var Par = harness.Define(harness.Opts{Name: "parallel", Rule: rulePar, Quick: 600, Thorough: 6000, Crashy: true}, genPar, checkPar)
 var Scan = harness.Define(harness.Opts{Name: "scan", Rule: ruleScan, Quick: 1800, Thorough: 8000, Crashy: true}, genScan, checkScan)
 
 // poolSanity guards the oracle's "by construction" knowledge: the generated good leaves parse in the
@@ -47,5 +51,5 @@ func poolSanity(t *testing.T) {
 
 func TestProps(t *testing.T) {
 	poolSanity(t)
-	harness.Main(t, "C16", Fetch, Scan)
+	harness.Main(t, "C16", Fetch, Scan, Par)
 }
